@@ -1,6 +1,7 @@
 package rules
 
 import (
+	"go/types"
 	"strings"
 	"sync"
 
@@ -92,4 +93,73 @@ func canonIndex(callee *ssa.Function, name string) int {
 		}
 	}
 	return -1
+}
+
+// printerFunc finds the function Disassemble hands to decode as its printer: a function literal, a named function
+// or a method value - whatever form the argument of printer type takes. For a method value it returns the method
+// (the receiver is then an ordinary first parameter).
+func (c *Ctx) printerFunc() *ssa.Function {
+	dis := c.Fn("decode", "Disassemble")
+	pt := c.P.Named("decode", "printer")
+	if dis == nil {
+		return nil
+	}
+	target := func(v ssa.Value) *ssa.Function {
+		for {
+			switch x := v.(type) {
+			case *ssa.ChangeType:
+				v = x.X
+				continue
+			case *ssa.MakeClosure:
+				fn, _ := x.Fn.(*ssa.Function)
+				if fn != nil && fn.Synthetic != "" && len(fn.Blocks) > 0 {
+					// bound method wrapper: the method it forwards to
+					for _, b := range fn.Blocks {
+						for _, ins := range b.Instrs {
+							if call, ok := ins.(ssa.CallInstruction); ok {
+								if sc := call.Common().StaticCallee(); sc != nil && c.P.FnInModule(sc) {
+									return sc
+								}
+							}
+						}
+					}
+				}
+				return fn
+			case *ssa.Function:
+				return x
+			}
+			return nil
+		}
+	}
+	var found *ssa.Function
+	n := 0
+	for _, b := range dis.Blocks {
+		for _, ins := range b.Instrs {
+			call, ok := ins.(ssa.CallInstruction)
+			if !ok {
+				continue
+			}
+			for _, a := range call.Common().Args {
+				isPrinter := pt != nil && types.Identical(a.Type(), pt)
+				if !isPrinter {
+					if sig, ok := a.Type().Underlying().(*types.Signature); !ok || pt == nil || !types.Identical(sig, pt.Underlying()) {
+						continue
+					}
+				}
+				if fn := target(a); fn != nil && fn.Blocks != nil {
+					if found != fn {
+						n++
+					}
+					found = fn
+				}
+			}
+		}
+	}
+	if n == 1 {
+		return found
+	}
+	if len(dis.AnonFuncs) == 1 {
+		return dis.AnonFuncs[0]
+	}
+	return nil
 }
